@@ -6,7 +6,8 @@
    real code: known_findings.txt F1, F10, F12, F8); _partial = proved under the stated hypotheses. *)
 From Coq Require Import List Arith Bool NArith.
 From AV Require Import model.C05_model model.C05_run proofs.C05_proofs proofs.C05_safety proofs.C05_repl
-  proofs.C05_phys proofs.C05_spec proofs.C05_witness model.C05_fixed proofs.C05_fixed_proofs.
+  proofs.C05_phys proofs.C05_spec proofs.C05_witness model.C05_fixed proofs.C05_fixed_proofs
+  model.C05_fixed2 proofs.C05_fixed2_proofs.
 Import ListNotations.
 
 (* -- clauses that hold for every layout, every replica set, every Desired ------------------------- *)
@@ -160,8 +161,17 @@ Theorem C05_hypotheses_satisfiable :
 Proof. exact ex_ok_facts. Qed.
 Print Assumptions C05_hypotheses_satisfiable.
 
-(* -- the proposed repair (model/C05_fixed.v = current code + fixes/F1_F10_alt_protection_pass.diff,
-      F8.diff, F12.diff; exercised by the harness only with VERIF_C05_FIXED=1 on a patched copy) ------- *)
+(* -- the proposed repairs.  Recommended: model/C05_fixed2.v = current code + fixes/F1_F10.diff, F8.diff,
+      F12.diff (protection stays in trySlot; upstream's balancerSuite still passes).  Alternative:
+      model/C05_fixed.v = current code + fixes/F1_F10_alt_protection_pass.diff, F8.diff, F12.diff.
+      Both are exercised by the harness only on a patched scratch copy (VERIF_C05_FIXED=2 / =1). ------- *)
+
+(* the recommended repair meets the whole specification on every well-formed case *)
+Theorem C05_fixed2_meets_spec : forall c, wf_b c = true ->
+  let '(chs, lost) := m_out_f2 c in Spec c (trashes chs) (pulls chs) lost.
+Proof. exact fixed2_meets_spec. Qed.
+Print Assumptions C05_fixed2_meets_spec.
+
 
 (* the repaired algorithm meets the whole specification on every well-formed case: no hypothesis on
    shared devices, mounts per class and server, offered classes or read-only flags *)
